@@ -9,6 +9,7 @@ import (
 	"strconv"
 	"strings"
 	"sync"
+	"sync/atomic"
 	"time"
 
 	"gircverif/drive"
@@ -29,7 +30,9 @@ import (
 //	command], nT, nT x [count, count x [op]], nCert, nCert x [action], observed actions
 //
 // flags: b background, t AddTmp, d AddTmp with a deadline, i internal, g gated (see hangup).
-// recover: "1" RecoverFunc installed; "h" appended: the server hangs up while event 0 is still
+// recover: "1" RecoverFunc installed; "o" appended: a burst larger than the receive queue arrives
+// while event 0 is still being handled; "r" appended: the last registrar program is run by
+// handler 0 from inside its function (operation k while it handles event 2k+1); "h" appended: the server hangs up while event 0 is still
 // being handled (everything it sent before must still be delivered); "t": the run stalled.
 // op:     a<h> Add.. creating handler h | m<h> Remove(cuid of h) | k<j> Clear(clear command j) | K ClearAll
 // action: v.n arrive | d.n deliver | s.n.k snapshot of phase k | g.n.h bg wrapper signals |
@@ -117,6 +120,8 @@ func (o trOp) String() string {
 type trScenario struct {
 	timedOut bool // the run stalled (twice): the trace may lack late actions
 	hangup   bool // the server sends all events and hangs up while event 0 is still being handled
+	inline   bool // the last registrar program is run from inside handler 0: its k-th operation while handling event 2k+1
+	overflow bool // the server sends more events than the receive queue holds while event 0 is still being handled
 	recover  bool
 	handlers []trHandler
 	init     []int
@@ -216,6 +221,12 @@ func trEncode(sc *trScenario, cert, obs []trAct) Case {
 	if sc.hangup {
 		c[0] += "h"
 	}
+	if sc.overflow {
+		c[0] += "o"
+	}
+	if sc.inline {
+		c[0] += "r"
+	}
 	c = append(c, strconv.Itoa(len(sc.handlers)))
 	for _, h := range sc.handlers {
 		c = append(c, h.cmd, h.flags())
@@ -276,6 +287,8 @@ func trDecode(c Case) (sc *trScenario, cert, obs []trAct, ok bool) {
 	sc.recover = strings.Contains(rc, "1")
 	sc.timedOut = strings.Contains(rc, "t")
 	sc.hangup = strings.Contains(rc, "h")
+	sc.overflow = strings.Contains(rc, "o")
+	sc.inline = strings.Contains(rc, "r")
 	for j := 0; j < nh; j++ {
 		cmd, a := next()
 		fl, b := next()
@@ -453,7 +466,7 @@ func trRun(sc *trScenario, seed int64, procs int) (obs []trAct, stalled bool) {
 	}()
 	timedOut := false
 	gate := make(chan struct{}) // closed when gated handlers may return
-	if !sc.hangup {
+	if !sc.hangup && !sc.overflow {
 		close(gate)
 	}
 
@@ -486,6 +499,7 @@ func trRun(sc *trScenario, seed int64, procs int) (obs []trAct, stalled bool) {
 		}
 		return -1
 	}
+	var inlineOp func(n int) // runs the operation the scenario has handler 0 issue while it handles event n
 	body := func(h int) func(girc.Event) bool {
 		return func(e girc.Event) bool {
 			n := seqOf(e)
@@ -496,11 +510,14 @@ func trRun(sc *trScenario, seed int64, procs int) (obs []trAct, stalled bool) {
 			if sc.handlers[h].gated && n == 0 {
 				<-gate
 			}
+			if sc.inline && h == 0 && inlineOp != nil {
+				inlineOp(n)
+			}
 			x := trMix(seed, 1, h, n)
 			if x%2 == 0 {
 				time.Sleep(time.Duration(x>>8%3000) * time.Microsecond)
 			}
-			if trMix(seed, 2, h, n)%9 == 0 && sc.recover {
+			if trMix(seed, 2, h, n)%9 == 0 && sc.recover && !(sc.inline && h == 0) {
 				log.stamp(trAct{kind: 'E', n: n, h: h, o: 'p'})
 				panic("c06: handler panic")
 			}
@@ -558,7 +575,34 @@ func trRun(sc *trScenario, seed int64, procs int) (obs []trAct, stalled bool) {
 	// against a concurrent Add of the same command could not be told from the trace)
 	var regMu sync.RWMutex
 	var regs sync.WaitGroup
+	if sc.inline && len(sc.threads) > 0 {
+		ti := len(sc.threads) - 1
+		inlineOp = func(n int) {
+			k := (n - 1) / 2
+			if n%2 == 0 || k >= len(sc.threads[ti]) {
+				return
+			}
+			op := sc.threads[ti][k]
+			log.stamp(trAct{kind: 'c', n: ti, op: op})
+			res := byte('1')
+			switch op.kind {
+			case 'm':
+				cuidMu.Lock()
+				cuid := cuids[op.arg]
+				cuidMu.Unlock()
+				if !s.C.Handlers.Remove(cuid) {
+					res = '0'
+				}
+			case 'k':
+				s.C.Handlers.Clear(sc.clears[op.arg])
+			}
+			log.stamp(trAct{kind: 'r', n: ti, op: op, o: res})
+		}
+	}
 	for i, prog := range sc.threads {
+		if sc.inline && i == len(sc.threads)-1 {
+			continue // run from inside handler 0
+		}
 		regs.Add(1)
 		go func(i int, prog []trOp) {
 			defer regs.Done()
@@ -624,46 +668,82 @@ func trRun(sc *trScenario, seed int64, procs int) (obs []trAct, stalled bool) {
 			trStall(9)
 		}
 	}
-	for n, e := range sc.events {
-		if !feedOK {
-			break
-		}
-		if x := trMix(seed, 6, n, 0); x%4 == 0 {
-			time.Sleep(time.Duration(x>>8%1500) * time.Microsecond)
-		}
-		if e.nick != cur {
-			barriers++
-			tok := "c06nick" + strconv.Itoa(barriers)
-			if !send(":"+cur+"!user@host NICK "+e.nick) || !send("PING :"+tok) {
+	var written int64 // lines of the scenario the client has taken off the wire
+	feed := func() {
+		for n, e := range sc.events {
+			if !feedOK {
 				break
 			}
-			cur = e.nick
-			if !c06Await(func() bool {
-				for _, l := range s.Since(0) {
-					if strings.HasPrefix(l, "PONG") && strings.HasSuffix(strings.TrimSpace(l), tok) {
-						return true
-					}
+			if x := trMix(seed, 6, n, 0); x%4 == 0 && !sc.overflow {
+				time.Sleep(time.Duration(x>>8%1500) * time.Microsecond)
+			}
+			if e.nick != cur {
+				barriers++
+				tok := "c06nick" + strconv.Itoa(barriers)
+				if !send(":"+cur+"!user@host NICK "+e.nick) || !send("PING :"+tok) {
+					break
 				}
-				return false
-			}, progress, c06StallLimit) {
-				timedOut = true
-				trStall(10)
-				break
+				cur = e.nick
+				if !c06Await(func() bool {
+					for _, l := range s.Since(0) {
+						if strings.HasPrefix(l, "PONG") && strings.HasSuffix(strings.TrimSpace(l), tok) {
+							return true
+						}
+					}
+					return false
+				}, progress, c06StallLimit) {
+					timedOut = true
+					trStall(10)
+					break
+				}
 			}
+			text := strconv.Itoa(n)
+			tags := ""
+			if x := trMix(seed, 7, n, 0); x%8 == 0 {
+				// a long line (legal with message tags): 4000-9000 bytes, still one event
+				text = text + " " + strings.Repeat("x", 2500+int(x>>8%5000)) + " " + text
+				tags = "@c06=" + strings.Repeat("t", 1000+int(x>>24%1500)) + " "
+			}
+			line := tags + ":" + e.src + " " + e.cmd + " " + cur + " :" + text
+			if e.cmd == "PRIVMSG" || e.cmd == "NOTICE" {
+				line = tags + ":" + e.src + "!user@host " + e.cmd + " #chan :" + text
+			}
+			log.stamp(trAct{kind: 'v', n: n})
+			feedOK = send(line)
+			atomic.AddInt64(&written, 1)
 		}
-		text := strconv.Itoa(n)
-		tags := ""
-		if x := trMix(seed, 7, n, 0); x%8 == 0 {
-			// a long line (legal with message tags): 4000-9000 bytes, still one event
-			text = text + " " + strings.Repeat("x", 2500+int(x>>8%5000)) + " " + text
-			tags = "@c06=" + strings.Repeat("t", 1000+int(x>>24%1500)) + " "
+	}
+	if sc.overflow {
+		// Burst behind a held-back foreground handler: the server writes more lines than the
+		// receive queue (25) holds while the function of the gated handler has not returned.
+		// 26 writes complete in any case (event 0 is being handled, 25 are queued); that is the
+		// condition the gate waits for.  The pause after it only lets a client that takes lines
+		// faster than it may (the rest of the burst) do so; it decides nothing.
+		fed := make(chan struct{})
+		go func() { feed(); close(fed) }()
+		if !c06Await(func() bool { return atomic.LoadInt64(&written) >= 26 || len(sc.events) < 27 },
+			func() string { return progress() + "/" + itoa(int(atomic.LoadInt64(&written))) }, c06StallLimit) {
+			timedOut = true
+			trStall(11)
 		}
-		line := tags + ":" + e.src + " " + e.cmd + " " + cur + " :" + text
-		if e.cmd == "PRIVMSG" || e.cmd == "NOTICE" {
-			line = tags + ":" + e.src + "!user@host " + e.cmd + " #chan :" + text
+		for until := time.Now().Add(50 * time.Millisecond); int(atomic.LoadInt64(&written)) < len(sc.events) && time.Now().Before(until); {
+			time.Sleep(200 * time.Microsecond)
 		}
-		log.stamp(trAct{kind: 'v', n: n})
-		feedOK = send(line)
+		close(gate)
+		done := false
+		if !c06Await(func() bool {
+			select {
+			case <-fed:
+				done = true
+			default:
+			}
+			return done
+		}, func() string { return progress() + "/" + itoa(int(atomic.LoadInt64(&written))) }, c06StallLimit) {
+			timedOut = true
+			trStall(12)
+		}
+	} else {
+		feed()
 	}
 	regsDone := make(chan struct{})
 	go func() { regs.Wait(); close(regsDone) }()
@@ -870,6 +950,20 @@ func trOracle(sc *trScenario, obs []trAct) string {
 			}
 			if _, sent := arrive[n]; sent && regBefore && !removable && len(st) == 0 {
 				return fmt.Sprintf("missed-delivery: event %d (%s) never reached handler %d (%s), registered throughout", n, e.cmd, h, d.cmd)
+			}
+			// removed while a foreground wildcard handler was still handling event n: the command
+			// handlers of n are selected only after every foreground wildcard handler has returned
+			if len(st) == 1 && route == 3 {
+				for hw, dw := range sc.handlers {
+					if trRoute(dw, e) != 2 || len(starts[nh{n, hw}]) != 1 || len(ends[nh{n, hw}]) != 1 {
+						continue
+					}
+					for _, o := range ops {
+						if o.op.kind == 'm' && o.op.arg == h && o.res == '1' && o.ret < ends[nh{n, hw}][0] {
+							return fmt.Sprintf("removed-handler-invoked: handler %d ran for event %d although Remove had returned true before the foreground wildcard handler %d returned from that event", h, n, hw)
+						}
+					}
+				}
 			}
 			// surely removed before event n was sent
 			if len(st) == 1 {
@@ -1422,9 +1516,62 @@ func genNickScenario(r *rand.Rand) *trScenario {
 	return sc
 }
 
+// genInlineScenario: handler 0 is a foreground wildcard handler that, while it handles event
+// 2k+1, removes handler k+1 — a foreground handler registered for exactly that event's
+// command.  The command handlers of an event are selected after the wildcard handlers have
+// returned, so the removed handler must not run for that event any more.
+func genInlineScenario(r *rand.Rand) *trScenario {
+	sc := &trScenario{recover: true, inline: true}
+	sc.handlers = append(sc.handlers, trHandler{cmd: "*"})
+	nv := 2 + r.Intn(4)
+	var prog []trOp
+	cmds := []string{"FOO", "BAR", "PRIVMSG", "NOTICE", "BAZ"}
+	vcmd := make([]string, nv)
+	for k := 0; k < nv; k++ {
+		vcmd[k] = Pick(r, cmds...)
+		sc.handlers = append(sc.handlers, trHandler{cmd: Pick(r, vcmd[k], strings.ToLower(vcmd[k]))})
+		prog = append(prog, trOp{kind: 'm', arg: k + 1})
+	}
+	if r.Intn(2) == 0 { // a bystander in the background
+		sc.handlers = append(sc.handlers, trHandler{cmd: Pick(r, cmds...), bg: true})
+	}
+	for h := range sc.handlers {
+		sc.init = append(sc.init, h)
+	}
+	ne := 2*nv + 1 + r.Intn(4)
+	for n := 0; n < ne; n++ {
+		cmd := Pick(r, cmds...)
+		if k := (n - 1) / 2; n%2 == 1 && k < nv {
+			cmd = vcmd[k]
+		}
+		sc.events = append(sc.events, trEv(cmd, false))
+	}
+	sc.clears = []string{"foo"}
+	sc.threads = [][]trOp{prog}
+	return sc
+}
+
+// genOverflowScenario: as a hang-up scenario, but the server stays and sends 40-60 events (the
+// receive queue holds 25) while the function of handler 0 has not returned for event 0.  The
+// events must still be dispatched one by one in the server's order.
+func genOverflowScenario(r *rand.Rand) *trScenario {
+	sc := genHangupScenario(r)
+	sc.hangup, sc.overflow = false, true
+	for n := len(sc.events); n < 40+r.Intn(21); n++ {
+		cmd := Pick(r, "FOO", "FOO", "BAR", "PRIVMSG", "NOTICE", "BAZ")
+		echo := (cmd == "PRIVMSG" || cmd == "NOTICE") && r.Intn(3) == 0
+		sc.events = append(sc.events, trEv(cmd, echo))
+	}
+	return sc
+}
+
 func genTraceCase(r *rand.Rand) Case {
 	var sc *trScenario
-	switch r.Intn(5) {
+	switch r.Intn(7) {
+	case 6:
+		sc = genInlineScenario(r)
+	case 5:
+		sc = genOverflowScenario(r)
 	case 0:
 		sc = genHangupScenario(r)
 	case 1:
